@@ -132,6 +132,16 @@ func (es *ExpressionStatement) WriteTo(cw *CodeWriter) {
 	cw.WriteSemi()
 }
 
+// writeParenthesised writes an expression between parentheses exactly as a GroupedExpression
+// around it would be written, so that printing the re-parsed output reproduces it.
+func writeParenthesised(cw *CodeWriter, e Expression) {
+	cw.WriteRune('(')
+	cw.IncreaseIndent()
+	e.WriteTo(cw)
+	cw.DecreaseIndent()
+	cw.WriteRune(')')
+}
+
 type FunctionDeclaration struct {
 	Token      token.Token // the FUNCTION token
 	Name       *Identifier
@@ -401,11 +411,9 @@ func (be *BinaryExpression) WriteTo(cw *CodeWriter) {
 	// Left side needs parens if its precedence is lower than ours
 	leftNeedsParens := be.Left.Precedence() < myPrecedence
 	if leftNeedsParens {
-		cw.WriteRune('(')
-	}
-	be.Left.WriteTo(cw)
-	if leftNeedsParens {
-		cw.WriteRune(')')
+		writeParenthesised(cw, be.Left)
+	} else {
+		be.Left.WriteTo(cw)
 	}
 
 	cw.WriteSpace()
@@ -419,11 +427,9 @@ func (be *BinaryExpression) WriteTo(cw *CodeWriter) {
 	// For example: 1-2-3 should be ((1-2)-3) not (1-(2-3))
 	rightNeedsParens := be.Right.Precedence() <= myPrecedence
 	if rightNeedsParens {
-		cw.WriteRune('(')
-	}
-	be.Right.WriteTo(cw)
-	if rightNeedsParens {
-		cw.WriteRune(')')
+		writeParenthesised(cw, be.Right)
+	} else {
+		be.Right.WriteTo(cw)
 	}
 }
 
@@ -444,9 +450,7 @@ func (ue *UnaryExpression) WriteTo(cw *CodeWriter) {
 	cw.WriteString(ue.Operator)
 	// Right side needs parens if its precedence is lower than unary
 	if ue.Right.Precedence() < PrecedenceUnary {
-		cw.WriteRune('(')
-		ue.Right.WriteTo(cw)
-		cw.WriteRune(')')
+		writeParenthesised(cw, ue.Right)
 	} else {
 		ue.Right.WriteTo(cw)
 	}
@@ -466,9 +470,7 @@ func (pe *PostfixExpression) WriteTo(cw *CodeWriter) {
 	cw.WriteLeadingComments(pe.Token.LeadingComments)
 	// Left side needs parens if its precedence is lower than postfix
 	if pe.Left.Precedence() < PrecedencePostfix {
-		cw.WriteRune('(')
-		pe.Left.WriteTo(cw)
-		cw.WriteRune(')')
+		writeParenthesised(cw, pe.Left)
 	} else {
 		pe.Left.WriteTo(cw)
 	}
